@@ -303,7 +303,7 @@ def vec_push(it, args, n, f):
     v = vec_of(it, args[0])
     if isinstance(v, VecV):
         v.obj.items.append(args[1])
-        it.emit("vec_push", vec=v.obj.name, item=show(it, args[1]), line=n.get("line"), state=node_state(it, args[1]))
+        it.emit("vec_push", vec=v.obj.name, item=show(it, args[1]), line=n.get("line"), state=node_state(it, args[1]), val=args[1])
         return UnitV()
     if isinstance(v, ArenaVecV):
         node = it.val_force(args[1])
@@ -399,7 +399,7 @@ def vec_extend(it, args, n, f):
         raise Unrecognised("extend on %r" % (v,))
     for x in src.items:
         v.obj.items.append(x)
-        it.emit("vec_push", vec=v.obj.name, item=show(it, x), line=n.get("line"))
+        it.emit("vec_push", vec=v.obj.name, item=show(it, x), line=n.get("line"), val=x)
     return UnitV()
 
 
@@ -791,3 +791,22 @@ def opt_ok_or_else(it, args, n, f):
             return StructV(RESULT, "Ok", {"0": o.fields["0"]})
         return StructV(RESULT, "Err", {"0": Cell(it.call_value(args[1], [], n), "err")})
     raise Unrecognised("ok_or_else of %r" % (o,))
+
+
+@model("std::cmp::PartialEq::eq", "std::cmp::PartialEq::ne", doc="(in)equality of two scalars: relation oracle for masks/lengths, else one lazy boolean")
+def partial_eq(it, args, n, f):
+    l = it.val_force(args[0])
+    r = it.val_force(args[1])
+    while isinstance(l, RefV):
+        l = it.force(l.cell)
+    while isinstance(r, RefV):
+        r = it.force(r.cell)
+    op = "Ne" if f.get("name") == "ne" else "Eq"
+    return it.binop(op, l, r, n)
+
+
+@model("std::cmp::PartialOrd::gt", "std::cmp::PartialOrd::le", "std::cmp::PartialOrd::ge", doc="ordering of two scalars (relation oracle)")
+def partial_ord_other(it, args, n, f):
+    l = it.force(deref(it, args[0]))
+    r = it.force(deref(it, args[1]))
+    return it.binop({"gt": "Gt", "le": "Le", "ge": "Ge"}[f.get("name")], l, r, n)
